@@ -1,5 +1,6 @@
 (* C12 - JSON game logs are schema-valid and read back exactly as written.
    Only statements, each closed by [exact]; proofs are in the files imported below. *)
+From BE Require Import Gen.JsonFns Proofs.JsonGen Proofs.JsonGenCor.
 From BE Require Import Model.Json Model.Schema Gen.JsonFraming Gen.Schemas Proofs.Json.
 From Coq Require Import ZArith.
 Local Open Scope string_scope.
@@ -66,6 +67,46 @@ Theorem C12_schema_hypothesis_is_needed :
   wf_rec ex_short_row /\ validates log_schema (JObj [("logs", JArr (map record_json [ex_short_row]))]) = false.
 Proof. exact log_schema_needs_full_rows. Qed.
 Print Assumptions C12_schema_hypothesis_is_needed.
+
+(* JsonLogWriter.write REGENERATED from the text of writer.py on every run (harness/gen_jsonw.py): the record it builds equals the hand model, for every record *)
+Theorem C12_generated_writer_is_hand_model :
+  forall r : logrec, g_record_json r = record_json r.
+Proof. exact g_record_json_eq. Qed.
+Print Assumptions C12_generated_writer_is_hand_model.
+
+(* convert_board_log regenerated from parser.py, on everything the writer writes, equals the hand model (read through the typed view shape_log) *)
+Theorem C12_generated_reader_on_written_records :
+  forall r : logrec,
+  py_bind (g_log_of_json (g_record_json r)) shape_log = log_of_json (record_json r).
+Proof. exact g_log_of_written. Qed.
+Print Assumptions C12_generated_reader_on_written_records.
+
+(* parse_board_logs regenerated: the hand model on every document whose records have a play_history key and only seat / side names under players / scores (as every written record has) *)
+Theorem C12_generated_reader_is_hand_model :
+  forall doc,
+  (forall l, field "logs" doc = Some (JArr l) -> forall j, In j l -> log_written j) ->
+  py_bind (g_parse_board_logs doc) (map_opt shape_log) = parse_board_logs doc.
+Proof. exact g_parse_board_logs_eq. Qed.
+Print Assumptions C12_generated_reader_is_hand_model.
+
+(* the property, for the regenerated writer and reader *)
+Theorem C12_roundtrip_generated :
+  forall rs, Forall wf_rec rs ->
+  exists rs', g_read_logs (g_logs_doc rs) = Some rs' /\ Forall2 rec_equiv rs rs'.
+Proof. exact g_logs_roundtrip. Qed.
+Print Assumptions C12_roundtrip_generated.
+
+Theorem C12_as_settings_generated :
+  forall rs,
+  exists ss, g_read_settings (g_logs_doc rs) = Some ss /\ Forall2 setting_matches rs ss.
+Proof. exact g_log_as_settings. Qed.
+Print Assumptions C12_as_settings_generated.
+
+Theorem C12_schema_generated :
+  forall rs, Forall (fun r => dda_full (l_dda r)) rs ->
+  validates log_schema (g_logs_doc rs) = true.
+Proof. exact g_logs_schema_valid. Qed.
+Print Assumptions C12_schema_generated.
 
 (* non-vacuity *)
 Theorem C12_example_written_and_read :
